@@ -98,6 +98,8 @@ class Agg:
         self.kind, self.name, self.variant, self.vidx, self.fields = kind, name, variant, vidx, list(fields)
 
     def __repr__(self):
+        if self.kind == "closure":
+            return "closure %s%s" % (self.name, self.fields)
         return "%s%s" % (self.variant or self.kind, self.fields)
 
 
@@ -777,7 +779,8 @@ class Interp:
             if rv["agg"] == "adt":
                 return Agg("adt", rv["adt"], rv["variant"], int(rv["variant_idx"]), ops)
             if rv["agg"] == "closure":
-                return Agg("closure", rv["closure"], None, None, ops)
+                # (the `variant` slot of a closure value keeps the generic environment of the function that built it)
+                return Agg("closure", rv["closure"], dict(fr.env), None, ops)
             raise Unsupported("aggregate %s" % rv["agg"])
         if k == "repeat":
             v = self.operand(fr, rv["op"])
@@ -849,14 +852,68 @@ class Interp:
             else:
                 raise Unsupported("terminator %s" % k)
 
+    def apply_callable(self, fv, cargs, fr, t, depth):
+        """call of a function value: a function item, a closure constant (no captures) or a closure aggregate"""
+        if isinstance(fv, Ref):
+            fv = self.project(fv.frame, fv.frame.locals.get(fv.local), fv.proj)
+        if isinstance(fv, Opaque) and isinstance(fv.what, tuple) and fv.what[0] == "fn":
+            fargs = [self.subst(fr, a) for a in fv.what[2]]
+            return self.call_named(fv.what[1], fargs, list(cargs), fr, t, depth, None)
+        if isinstance(fv, Opaque) and isinstance(fv.what, tuple) and fv.what[0] == "closure":
+            fv = Agg("closure", fv.what[1], dict(fr.env), None, [])
+        if isinstance(fv, Agg) and fv.kind == "closure":
+            body = self.find_body(fv.name, [])
+            if body is None:
+                raise Unsupported("closure body %s" % fv.name)
+            l1 = str(body["locals"][1]["ty"]) if len(body["locals"]) > 1 else ""
+            if l1.startswith("&"):
+                holder = Frame({"path": "<closure holder>", "locals": []}, {})
+                holder.locals[0] = fv
+                a0 = Ref(holder, 0, [])
+            else:
+                a0 = fv
+            return self.call_body(body, [a0] + list(cargs), fv.variant if isinstance(fv.variant, dict) else dict(fr.env), depth + 1)
+        raise Unsupported("call of the function value %r" % (fv,))
+
     def call(self, fr, t, depth):
         f = t["func"]
         if f["k"] != "const" or "fn" not in f:
             fv = self.operand(fr, f)
-            raise Unsupported("indirect call through %r" % (fv,))
+            return self.apply_callable(fv, [self.operand(fr, a) for a in t["args"]], fr, t, depth)
         name = f["fn"]
         fargs = [self.subst(fr, a) for a in f.get("fn_args", [])]
         args = [self.operand(fr, a) for a in t["args"]]
+        return self.call_named(name, fargs, args, fr, t, depth, f.get("fn_crate"))
+
+    def call_named(self, name, fargs, args, fr, t, depth, crate):
+        f = {"fn_crate": crate if crate is not None else ("dsi_bitstream" if self.F.by_path.get(name) else name.split("::")[0])}
+        if name in ("std::ops::FnOnce::call_once", "std::ops::FnMut::call_mut", "std::ops::Fn::call") and len(args) == 2:
+            tup = args[1]
+            cargs = tup.fields if isinstance(tup, Agg) and tup.kind == "tuple" else [] if tup is UNIT else None
+            if cargs is not None:
+                return self.apply_callable(args[0], cargs, fr, t, depth)
+        m = re.match(r"std::(result::Result::<T, E>|option::Option::<T>)::(map|map_err|and_then|unwrap_or|unwrap_or_else|ok|is_ok|is_err|is_some|is_none)$", name)
+        if m and args and isinstance(args[0], Agg) and args[0].variant in ("Ok", "Err", "Some", "None"):
+            # std docs: the adapters of Result / Option on a value whose variant is known
+            r, fn = args[0], m.group(2)
+            good = r.variant in ("Ok", "Some")
+            adt = r.name
+            if fn in ("is_ok", "is_some"):
+                return AI("bool", int(good), int(good))
+            if fn in ("is_err", "is_none"):
+                return AI("bool", int(not good), int(not good))
+            if fn == "ok":
+                return mk_variant("std::option::Option", "Some", [r.fields[0]]) if good else mk_variant("std::option::Option", "None", [])
+            if fn == "map":
+                return mk_variant(adt, r.variant, [self.apply_callable(args[1], [r.fields[0]], fr, t, depth)]) if good else r
+            if fn == "map_err":
+                return r if good else mk_variant(adt, "Err", [self.apply_callable(args[1], [r.fields[0]], fr, t, depth)])
+            if fn == "and_then":
+                return self.apply_callable(args[1], [r.fields[0]], fr, t, depth) if good else r
+            if fn == "unwrap_or":
+                return r.fields[0] if good else args[1]
+            if fn == "unwrap_or_else":
+                return r.fields[0] if good else self.apply_callable(args[1], r.fields[:1], fr, t, depth)
         h = self.handlers.get(name)
         if h is not None:
             r = h(self, name, args, fargs, fr, t)
